@@ -4,14 +4,15 @@ module M = Model
 
 let eval case impl =
   match split_on ' ' case with
-  | [dir; _framing; _variant; _lens] ->
+  | [dir; _framing; variant; _lens] ->
     let probe = int_of_nat M.pROBE_MAX and bufw = int_of_nat M.bUFWRITER and bufr = int_of_n M.bUF_SIZE in
     (* heap part of the ledger (C20_response_bound): head Vec (512 initial, grows with the head) + collected Vec
        (amortised growth: at most twice PROBE_MAX) + BufWriter; the 128 KiB chunk buffer and the io::copy buffer live on
        the stack.  Request side (C20_reader_bound / C20_drain_bound): the BufReader's 4 KiB + a framing line.
        Server: both, plus the request head buffer (default limit 8 KiB) and the thread/socket bookkeeping of the harness *)
     let wbound = 1024 + 2 * probe + bufw and rbound = bufr + 256 in
-    let bound = match dir with "W" | "Q" -> wbound | "R" -> rbound | _ -> wbound + rbound + 8192 + 8192 in
+    (* bighead: nothing but the head buffer (limit 6000) and the 431 answer: limit + 4000 (measured: limit + 2936..3448) *)
+    let bound = match dir with "W" | "Q" -> wbound | "R" -> rbound | _ -> if variant = "bighead" then 6000 + 4000 else wbound + rbound + 8192 + 8192 in
     let ms = List.map (fun e -> match split_on ':' e with
         | [l; p; _a; ok] -> (int_of_string l, int_of_string p, ok = "1") | _ -> failwith "bad measurement") (split_on ' ' impl) in
     let all_ok = List.for_all (fun (_, _, ok) -> ok) ms in
